@@ -32,6 +32,8 @@ Definition nrpow (x y : num) : num :=
 Definition nofnat (n : nat) : num := INR n.
 Fixpoint nharm (m : nat) : num := match m with O => 0%R | S k => (nharm k + 1 / INR (S k))%R end.
 (* junk value standing for "Python raises here"; every theorem excludes these paths by hypothesis *)
+(* math.ceil *)
+Definition nceil (x : num) : num := (- IZR (Int_part (- x)))%R.
 Definition nraise : num := 0%R.
 Definition agg_wrap (a : aggregates num) : aggregates num := a.
 Definition dist_raise : dist num := mk_dist (fun _ => 0%R) (fun _ => 0%R) (fun _ => 0%R) (fun _ => 0%R).
